@@ -158,10 +158,11 @@ def _migrate_csv_to_rules(csv_file: str, config_dir: str, backup: bool = True,
                 # a run interrupted while appending in place could leave a torn line
                 # ("merchants_file: config/merch"), and load_config does not fall back to the CSV
                 # when merchants_file names a file that does not exist
-                with open(settings_path, 'r', encoding='utf-8') as f:
+                # (newline='': the file's own line endings are kept as they are)
+                with open(settings_path, 'r', encoding='utf-8', newline='') as f:
                     settings_text = f.read()
                 tmp_path = settings_path + '.tmp'
-                with open(tmp_path, 'w', encoding='utf-8') as f:
+                with open(tmp_path, 'w', encoding='utf-8', newline='') as f:
                     f.write(settings_text
                             + '\n# Merchant rules file (migrated from CSV)\n'
                             + 'merchants_file: config/merchants.rules\n')
